@@ -297,7 +297,17 @@ fn liq_ratio(r: &Run, rec: &StepRec) -> Option<SInt> {
         (Some(p), Some(os), Some(ot), Some(sp)) => (p, os, ot, sp),
         _ => return None,
     };
-    let i = spec::RatioIn { p, out_spot: os, out_twap: ot, cum: &rec.pre.cum[r.vi], spot_price: sp, oracle: rec.obs.oracle, d: r.w.d };
+    // a flattened record of size zero is not a position (its ratio is undefined)
+    if p.size.value.is_zero() {
+        return None;
+    }
+    // funding owed is measured from the harness's own ledger of when the position was last charged
+    // (equal to the stored checkpoint unless the engine let it go stale)
+    let mut pl = p.clone();
+    if let Some(at) = r.charged_at.get(subject(&rec.op)) {
+        pl.last_updated_premium_fraction = *at;
+    }
+    let i = spec::RatioIn { p: &pl, out_spot: os, out_twap: ot, cum: &rec.pre.cum[r.vi], spot_price: sp, oracle: rec.obs.oracle, d: r.w.d };
     Some(spec::ratio_for_liquidation(&i))
 }
 
@@ -383,7 +393,19 @@ fn c07(r: &Run, rec: &StepRec) {
     if !st.open || !r.w.is_vamm(r.vi) {
         return;
     }
-    let pre = ratio.lt(s(cfg.maintenance_margin_ratio)).and(s(cfg.liquidation_fee).ne(c(0)));
+    // "the insurance fund holds enough to cover any shortfall": a sufficient bound on what it can
+    // be asked for is the position's negative equity plus the whole penalty
+    let enough = match (&rec.obs.pos, rec.obs.out_spot) {
+        (Some(p), Some(q)) => {
+            let f = crate::spec::funding_owed(p, &rec.pre.cum[r.vi], r.w.d);
+            let eq = crate::spec::equity(p, crate::spec::pnl(p, q), f);
+            let pen = s(q).mul(s(cfg.liquidation_fee)).div_e(c(r.w.d));
+            let need = SInt::zero().max(eq.neg()).add(pen);
+            s(rec.pre.bal["insurance_fund"]).ge(need)
+        }
+        _ => Cond::True,
+    };
+    let pre = ratio.lt(s(cfg.maintenance_margin_ratio)).and(s(cfg.liquidation_fee).ne(c(0))).and(enough);
     let kind = if !cfg.partial_liquidation_ratio.is_zero() { "partial-ratio>0" } else { "partial-ratio=0" };
     prove_d(
         "C07/under-margined-position-can-be-liquidated",
